@@ -440,3 +440,27 @@ package tq
 //@   assumed
 //@   props C03
 //@   modifies fresh
+
+// C18: an action is used as the server offered it.  The per-object transfer
+// built from a batch-response object keeps that object's id, size and
+// "authenticated" flag and copies every action with its href, headers and
+// expiry unchanged; an authenticated object's requests go out without the
+// client attaching credentials of its own.
+//@ func newTransfer
+//@   props C18
+//@   requires @inv tr != nil && tr.Actions != nil
+//@   ensures result != nil && result.Oid == old(tr.Oid) && result.Size == old(tr.Size) && result.Authenticated == old(tr.Authenticated) && result.Name == name && result.Path == path
+//@   loop 1 iter has(t.Actions, rel) && t.Actions[rel] != nil && t.Actions[rel].Href == action.Href && t.Actions[rel].Header == action.Header && t.Actions[rel].ExpiresAt == action.ExpiresAt && t.Actions[rel].ExpiresIn == action.ExpiresIn
+//@ func (*adapterBase).doHTTP
+//@   props C18
+//@   requires @inv a != nil && t != nil && req != nil && req.URL != nil && a.apiClient != nil
+//@   at call (*lfsapi.Client).Do:1 assert t.Authenticated && arg1__ == req
+//@   at call (*lfsapi.Client).DoWithAuthNoRetry:1 assert !t.Authenticated && arg3__ == req
+//@ func (*github.com/git-lfs/git-lfs/v3/lfsapi.Client).DoWithAuthNoRetry
+//@   assumed
+//@   props C18
+//@   modifies fresh
+//@ func endpointURL
+//@   assumed
+//@   props C18
+//@   pure
